@@ -9,6 +9,9 @@ def weight(e):
     la, lb, ln = len(e.get("a", [])), max(1, len(e.get("b", []))), max(1, len(e.get("n", [])))
     if e["op"] == "fint":
         return 1 + (e["N"] ** 2) // 64
+    if e["op"] == "conv_big":
+        terms = len(e.get("ap", [])) * len(e.get("bp", [])) if e.get("pat") == "sparse" else 3
+        return 1 + (len(e.get("ks", [])) * terms * ln * ln) // 100
     return 1 + (la * lb * ln * ln) // 500
 
 
@@ -18,6 +21,8 @@ def run(chk, replay=None):
     # (M) the packing table of convolve_modn: every row, every modulus size, every transform size
     r = core.model_check("poly/ConvDispatch.tla", "ConvDispatch.cfg", workers=2, timeout=600)
     chk.add_mc(r)
+    # (M) the closed forms used for large transforms equal the schoolbook cyclic product
+    chk.add_mc(core.model_check("poly/PolyBigMC.tla", "PolyBigMC.cfg", workers=4, timeout=900))
     # (I) input space
     shapes = os.path.join(w, "shapes.ndjson")
     nshapes, r = core.gen_shapes("poly/PolyShapes.tla", "PolyShapes_thorough.cfg" if thorough else "PolyShapes.cfg", shapes)
@@ -72,9 +77,9 @@ def run(chk, replay=None):
     chk.assumptions += [
         "TLC, SANY, CommunityModules; spec/lib BigNat (self-tested)",
         "zn.from_int / zn.to_int (Montgomery conversion, property C07) used to hand residues to the code and to read results back",
-        "exploration within sizes <= 128 (64-bit moduli), <= 64 (128-bit), <= 48 (256-bit), <= 32 (500-bit), doubled in the thorough tier: "
-        "transform sizes 2^8..2^16 with multiword moduli are beyond what TLC can recompute by the schoolbook definition; an error that "
-        "appears only at large transform sizes (e.g. a root-of-unity table index) is not detectable here",
+        "dense random operands within sizes <= 128 (64-bit moduli), <= 64 (128-bit), <= 48 (256-bit), <= 32 (500-bit), doubled in the "
+        "thorough tier; transform sizes 2^10..2^14 (2^16 thorough) are covered by operands with a closed-form product (period-2 full-size "
+        "values, sparse operands; closed forms proved equal to the definition on small sizes in PolyBigMC.tla) on sampled coefficients",
         "documented preconditions (DESIGN Appendix B): odd moduli of 2..500 bits, residues < n, power-of-two transform sizes >= 2, "
         "operands no longer than the transform, mzp.k >= log2(size), mul_karatsuba on balanced lengths (equal or differing by one), "
         "middlemul p.len = 2 q.len - 1, inverse/quotient with invertible constant term, multi_eval with at least as many points as "
